@@ -297,7 +297,7 @@ impl FTy {
             FTy::P2 => "P2",
         }
     }
-    fn bits(self) -> u32 {
+    pub fn bits(self) -> u32 {
         match self {
             FTy::U8 => 8,
             FTy::U16 => 16,
@@ -381,156 +381,6 @@ impl Shape {
             _ => None,
         }
     }
-}
-
-// ---------------------------------------------------------------------------------------------
-// reference model
-
-/// What a `receiver` (version k) holds after a `sender` (version n) transmitted `x` in the format
-/// of version `m` <= min(n, k): `up_k(down_m(x))`.
-///
-/// down_m: the serialized form of version m contains exactly the fields that exist at m; a field
-/// the sender has removed since is written with its value constructor; fields added after m are
-/// dropped. up_k: fields the receiver knows that do not exist at m take their declared default,
-/// all others are taken over unchanged; fields the receiver has removed are skipped.
-/// Err = the value is not representable at version m (an enum variant newer than m).
-pub fn transmit(sender: &Node, receiver: &Node, m: u32, x: &NVal) -> Result<NVal, String> {
-    assert!(on_same_path(sender, receiver) && m <= sender.depth && m <= receiver.depth);
-    let variant = x.variant.as_deref();
-    if let Some(vn) = variant {
-        let v = sender.shape.variant(vn).unwrap_or_else(|| panic!("model: sender {} has no variant {}", sender.id, vn));
-        if v.from > m {
-            return Err(format!("variant {} does not exist in version {}", vn, m));
-        }
-    }
-    let sf = sender.shape.fields_of(variant).unwrap_or_else(|| panic!("model: value does not fit sender {}", sender.id));
-    // down_m
-    let mut wire: BTreeMap<String, Scalar> = BTreeMap::new();
-    for f in sf {
-        if !f.on_wire(m) {
-            continue;
-        }
-        let ctor = f.ctor_leaves();
-        for (i, (leaf, _)) in f.leaves().into_iter().enumerate() {
-            let v = if f.live() { x.f.get(&leaf).cloned().unwrap_or_else(|| panic!("model: value lacks leaf {}", leaf)) } else { ctor[i].clone() };
-            wire.insert(leaf, v);
-        }
-    }
-    // up_k
-    let rf = receiver.shape.fields_of(variant).unwrap_or_else(|| panic!("model: receiver {} lacks the variant", receiver.id));
-    let mut out = NVal::new(variant);
-    for f in rf {
-        if !f.live() {
-            continue;
-        }
-        let dflt = f.default_leaves();
-        for (i, (leaf, _)) in f.leaves().into_iter().enumerate() {
-            let v = if f.from <= m { wire.get(&leaf).cloned().unwrap_or_else(|| panic!("model: wire of version {} lacks {}", m, leaf)) } else { dflt[i].clone() };
-            out.f.insert(leaf, v);
-        }
-    }
-    Ok(out)
-}
-
-/// What an implementation at `node` returns for the observed value `x`: every integer leaf + 1
-/// (wrapping in its width), every string with "!" appended - over ITS OWN full field set.
-pub fn bump(node: &Node, x: &NVal) -> NVal {
-    let fields = node.shape.fields_of(x.variant.as_deref()).expect("model: bump of a value that does not fit");
-    let mut out = NVal::new(x.variant.as_deref());
-    for f in fields.iter().filter(|f| f.live()) {
-        for (leaf, ty) in f.leaves() {
-            let v = match (x.f.get(&leaf), ty) {
-                (Some(Scalar::U(v)), t) if t.bits() > 0 => Scalar::U((v + 1) & ((1u64 << t.bits()) - 1)),
-                (Some(Scalar::S(s)), FTy::Str) => Scalar::S(format!("{}!", s)),
-                other => panic!("model: bump: leaf {} is {:?}", leaf, other),
-            };
-            out.f.insert(leaf, v);
-        }
-    }
-    out
-}
-
-/// serialized field names of `T` (for `variant`) at version v - used to tag cases structurally
-pub fn wire_fields(node: &Node, variant: Option<&str>, v: u32) -> Vec<String> {
-    node.shape.fields_of(variant).map(|fs| fs.iter().filter(|f| f.on_wire(v)).map(|f| f.name.clone()).collect()).unwrap_or_default()
-}
-
-pub const LONG: &str = "long string that spills the 64 byte stack buffer of the argument block: \u{e5}\u{e4}\u{f6} \u{20ac}";
-
-fn leaf_choices(ty: FTy, k: usize) -> Vec<Scalar> {
-    let k = k as u64;
-    match ty {
-        FTy::U8 => vec![Scalar::U(0x11 + k), Scalar::U(0), Scalar::U(0xff)],
-        FTy::U16 => vec![Scalar::U(0x0201 + 0x0101 * k), Scalar::U(0), Scalar::U(0xffff)],
-        FTy::U32 => vec![Scalar::U((0x04030201u64 + 0x10101010 * k) & 0xffff_ffff), Scalar::U(0), Scalar::U(0xffff_ffff)],
-        FTy::Str => vec![Scalar::S(format!("s{}", k)), Scalar::S(String::new()), Scalar::S(LONG.to_string())],
-        FTy::P2 => unreachable!(),
-    }
-}
-
-fn products(leaves: &[(String, FTy)], variant: Option<&str>, out: &mut Vec<NVal>) {
-    let choices: Vec<Vec<Scalar>> = leaves.iter().enumerate().map(|(k, (_, t))| leaf_choices(*t, k)).collect();
-    let n = leaves.len();
-    // full product up to 4 leaves (81 values); beyond that every assignment in which at most two
-    // leaves deviate from their first choice, plus the two uniform assignments
-    let mut idx = vec![0usize; n];
-    loop {
-        let deviating = idx.iter().filter(|i| **i != 0).count();
-        let uniform = n > 0 && idx.iter().all(|i| *i == idx[0]);
-        if n <= 4 || deviating <= 2 || uniform {
-            let mut v = NVal::new(variant);
-            for (j, (leaf, _)) in leaves.iter().enumerate() {
-                v.f.insert(leaf.clone(), choices[j][idx[j]].clone());
-            }
-            out.push(v);
-        }
-        let mut p = 0;
-        loop {
-            if p == n {
-                return;
-            }
-            idx[p] += 1;
-            if idx[p] < 3 {
-                break;
-            }
-            idx[p] = 0;
-            p += 1;
-        }
-    }
-}
-
-/// the enumerated values of `T` as defined at `node`
-pub fn values(node: &Node) -> Vec<NVal> {
-    let mut out = vec![];
-    match &node.shape {
-        Shape::Struct { fields, .. } => {
-            let leaves: Vec<(String, FTy)> = fields.iter().filter(|f| f.live()).flat_map(|f| f.leaves()).collect();
-            products(&leaves, None, &mut out);
-        }
-        Shape::Enum { variants } => {
-            for v in variants {
-                let leaves: Vec<(String, FTy)> = v.fields.iter().filter(|f| f.live()).flat_map(|f| f.leaves()).collect();
-                products(&leaves, Some(&v.name), &mut out);
-            }
-        }
-    }
-    out
-}
-
-/// argument lists for `vecs`: the empty vector, every single value, every adjacent pair, one triple
-pub fn vec_cases(vals: &[NVal]) -> Vec<Vec<NVal>> {
-    let mut out = vec![vec![]];
-    let n = vals.len();
-    for i in 0..n {
-        out.push(vec![vals[i].clone()]);
-    }
-    if n >= 2 {
-        for i in 0..n {
-            out.push(vec![vals[i].clone(), vals[(i + 1) % n].clone()]);
-        }
-        out.push(vec![vals[n - 1].clone(), vals[0].clone(), vals[n / 2].clone()]);
-    }
-    out
 }
 
 /// methods of `trait Iface` at version `depth`, in declaration order (newest first, so that the
@@ -690,7 +540,7 @@ fn emit_type(shape: &Shape, o: &mut String) {
 fn emit_conversions(shape: &Shape, o: &mut String) {
     match shape {
         Shape::Struct { fields, .. } => {
-            writeln!(o, "    #[allow(unused_mut)]\n    pub fn to_n(t: &T) -> NVal {{\n        let mut n = NVal::new(None);").unwrap();
+            writeln!(o, "    #[allow(unused_mut, unused_variables)]\n    pub fn to_n(t: &T) -> NVal {{\n        let mut n = NVal::new(None);").unwrap();
             for f in fields.iter().filter(|f| f.live()) {
                 to_n_stmts(f, &format!("t.{}", f.name), o);
             }
@@ -749,7 +599,7 @@ fn emit_conversions(shape: &Shape, o: &mut String) {
     }
 }
 
-const PRELUDE: &str = "    #![allow(non_camel_case_types, dead_code, unused_imports, clippy::all)]\n    use savefile::prelude::*;\n    use savefile::ValueConstructor;\n    use savefile_derive::{Savefile, savefile_abi_exportable};\n    use savefile_abi::{AbiConnection, AbiExportable};\n    use crate::support::*;\n";
+const PRELUDE: &str = "    #![allow(non_camel_case_types, dead_code, unused_imports, clippy::all)]\n    use savefile::prelude::*;\n    use savefile::ValueConstructor;\n    use savefile_derive::{Savefile, savefile_abi_exportable};\n    use savefile_abi::{AbiConnection, AbiExportable};\n    use vabi10fam::support::*;\n";
 
 fn emit_trait(depth: u32, o: &mut String) {
     writeln!(o, "    #[savefile_abi_exportable(version = {})]\n    pub trait Iface {{", depth).unwrap();
@@ -779,7 +629,7 @@ fn emit_impl(depth: u32, o: &mut String) {
     writeln!(o, "    }}").unwrap();
 }
 
-pub fn emit_node(nodes: &[Node], idx: usize) -> String {
+pub fn emit_node(nodes: &[Node], idx: usize, members: &[usize]) -> String {
     let node = &nodes[idx];
     let mut o = String::new();
     writeln!(o, "/// {} version {}: {}", node.id, node.depth, node.edits().chars().map(edit_label).collect::<Vec<_>>().join(" ; ")).unwrap();
@@ -806,7 +656,7 @@ pub fn emit_node(nodes: &[Node], idx: usize) -> String {
     writeln!(o, "                other => panic!(\"harness: the caller has no method {{}}\", other),\n            }}\n        }}\n    }}").unwrap();
     // connection table: every node on a common path
     writeln!(o, "    pub fn connect(callee: &str) -> Option<Result<Box<dyn CallerShim>, String>> {{\n        match callee {{").unwrap();
-    for other in nodes.iter().filter(|x| on_same_path(x, node)) {
+    for other in members.iter().map(|i| &nodes[*i]).filter(|x| on_same_path(x, node)) {
         writeln!(
             o,
             "            \"{id}\" => Some(unsafe {{ AbiConnection::<dyn Iface>::from_boxed_trait_for_test(<dyn super::{m}::Iface as AbiExportable>::ABI_ENTRY, Box::new(super::{m}::Impl) as Box<dyn super::{m}::Iface>) }}.map(|c| Box::new(Caller(c)) as Box<dyn CallerShim>).map_err(|e| format!(\"{{:?}}\", e))),",
@@ -899,31 +749,51 @@ pub fn emit_break(base: char, kind: &str) -> String {
     o
 }
 
-pub fn emit_all() -> String {
+/// The family is compiled in SHARDS (one crate each, built in parallel): a shard holds the base
+/// root(s) and complete depth-1 subtrees, so every pair of nodes on a common path lives in exactly
+/// one shard (root/root pairs and the breaking variants: in the first shard of the base).
+pub const SHARDS: &[&[&str]] = &[&["pa"], &["pb"], &["pc"], &["pd"], &["pe"], &["pf"], &["ma"], &["mb"], &["mc"], &["md"], &["me"], &["mf"], &["eg", "eh"], &["ei", "ej"]];
+
+pub fn shard_members(nodes: &[Node], shard: usize) -> Vec<usize> {
+    let prefixes = SHARDS[shard];
+    (0..nodes.len()).filter(|i| prefixes.iter().any(|p| nodes[*i].id.starts_with(p) || (nodes[*i].depth == 0 && p.starts_with(&nodes[*i].id)))).collect()
+}
+/// the shard that serves the pair (both orders)
+pub fn shard_of(a: &str, b: &str) -> Option<usize> {
+    let deeper = if a.len() >= b.len() { a } else { b };
+    SHARDS.iter().position(|ps| ps.iter().any(|p| if deeper.len() >= 2 { deeper.starts_with(p) } else { p.starts_with(deeper) }))
+}
+pub fn first_shard_of_base(base: char) -> usize {
+    SHARDS.iter().position(|ps| ps[0].starts_with(base)).expect("base has a shard")
+}
+
+pub fn emit_shard(shard: usize) -> String {
     let nodes = tree();
+    let members = shard_members(&nodes, shard);
     let mut o = String::new();
-    o.push_str("// generated by build.rs from src/spec.rs - do not edit\n");
-    for i in 0..nodes.len() {
-        o.push_str(&emit_node(&nodes, i));
+    o.push_str("// generated by build.rs from fam10/src/spec.rs - do not edit\nuse vabi10fam::support::CallerShim;\n");
+    for i in &members {
+        o.push_str(&emit_node(&nodes, *i, &members));
     }
-    for (b, _) in BASES {
+    let bases: Vec<char> = BASES.iter().map(|(b, _)| *b).filter(|b| first_shard_of_base(*b) == shard).collect();
+    for b in &bases {
         for (k, _) in BREAKS {
             o.push_str(&emit_break(*b, k));
         }
     }
     // registry
-    o.push_str("pub fn connect(caller: &str, callee: &str) -> Option<Result<Box<dyn crate::support::CallerShim>, String>> {\n    match caller {\n");
-    for n in &nodes {
-        writeln!(o, "        \"{}\" => {}::connect(callee),", n.id, n.module()).unwrap();
+    o.push_str("pub fn connect(caller: &str, callee: &str) -> Option<Result<Box<dyn CallerShim>, String>> {\n    match caller {\n");
+    for i in &members {
+        writeln!(o, "        \"{}\" => {}::connect(callee),", nodes[*i].id, nodes[*i].module()).unwrap();
     }
     o.push_str("        _ => None,\n    }\n}\n");
     o.push_str("pub fn latest_version(node: &str) -> Option<u32> {\n    match node {\n");
-    for n in &nodes {
-        writeln!(o, "        \"{}\" => Some({}::latest_version()),", n.id, n.module()).unwrap();
+    for i in &members {
+        writeln!(o, "        \"{}\" => Some({}::latest_version()),", nodes[*i].id, nodes[*i].module()).unwrap();
     }
     o.push_str("        _ => None,\n    }\n}\n");
-    o.push_str("pub fn break_connect(base: char, kind: &str, broken_side_is_caller: bool) -> Option<Result<u32, String>> {\n    match (base, kind, broken_side_is_caller) {\n");
-    for (b, _) in BASES {
+    o.push_str("#[allow(unused_variables)]\npub fn break_connect(base: char, kind: &str, broken_side_is_caller: bool) -> Option<Result<u32, String>> {\n    match (base, kind, broken_side_is_caller) {\n");
+    for b in &bases {
         for (k, _) in BREAKS {
             writeln!(o, "        ('{b}', \"{k}\", true) => Some(brk_{b}_{k}::as_caller()),\n        ('{b}', \"{k}\", false) => Some(brk_{b}_{k}::as_impl()),", b = b, k = k).unwrap();
         }
